@@ -19,7 +19,56 @@ use trust_runtime::Runtime;
 const HORIZON: u64 = 6000;
 const CYCLES: usize = 2;
 
-pub const PROGRAM: &str = r#"FUNCTION Inner : DINT
+/// Two variants of the scenario program: in variant 0 the task program ends with a plain
+/// statement (call depth 0) and the background program ends inside a call; in variant 1 it is the
+/// other way round. (Per-thread call-depth bookkeeping can go stale across a task switch only when
+/// the previous thread ended at depth 0 and the stepped thread ended inside a call.)
+pub const PROGRAMS: [&str; 2] = [
+    r#"FUNCTION Inner : DINT
+VAR_INPUT v : DINT; END_VAR
+    Inner := v + 1;
+END_FUNCTION
+
+FUNCTION Outer : DINT
+VAR_INPUT v : DINT; END_VAR
+    Outer := Inner(v) * 2;
+    Outer := Outer + 1;
+END_FUNCTION
+
+FUNCTION_BLOCK Acc
+VAR_INPUT d : DINT; END_VAR
+VAR_OUTPUT total : DINT; END_VAR
+    total := total + d;
+END_FUNCTION_BLOCK
+
+CONFIGURATION Conf
+VAR_GLOBAL
+    g : DINT := 0; h : DINT := 0;
+END_VAR
+TASK T1 (INTERVAL := T#1ms, PRIORITY := 0);
+PROGRAM P1 WITH T1 : Main;
+PROGRAM P2 : Bg;
+END_CONFIGURATION
+
+PROGRAM Main
+VAR
+    i : DINT; acc : Acc; r : DINT;
+END_VAR
+    r := Outer(g);
+    FOR i := 1 TO 2 DO
+        g := g + i;
+    END_FOR;
+    acc(d := r);
+    h := Inner(h);
+    h := acc.total;
+END_PROGRAM
+
+PROGRAM Bg
+    g := g + 100;
+    g := Inner(g);
+END_PROGRAM
+"#,
+    r#"FUNCTION Inner : DINT
 VAR_INPUT v : DINT; END_VAR
     Inner := v + 1;
 END_FUNCTION
@@ -55,25 +104,37 @@ END_VAR
     END_FOR;
     acc(d := r);
     h := acc.total;
+    h := Inner(h);
 END_PROGRAM
 
 PROGRAM Bg
+    g := Inner(g);
     g := g + 100;
 END_PROGRAM
-"#;
+"#,
+];
 
-const BP_NEEDLES: &[&str] = &["r := Outer(g);", "Inner := v + 1;", "g := g + i;", "total := total + d;", "g := g + 100;"];
+/// breakpoint needles per variant: B0 first statement of Main, B1 in Inner, B2 loop body, B3 FB body,
+/// B4 first statement of Bg, B5 last statement of Main, B6 last statement of Bg
+const BP_NEEDLES: [[&str; 7]; 2] = [
+    ["r := Outer(g);", "Inner := v + 1;", "g := g + i;", "total := total + d;", "g := g + 100;", "h := acc.total;", "g := Inner(g);"],
+    ["r := Outer(g);", "Inner := v + 1;", "g := g + i;", "total := total + d;", "g := Inner(g);", "h := Inner(h);", "g := g + 100;"],
+];
 
-fn build() -> Runtime {
-    TestHarness::from_source(PROGRAM).expect("C17 scenario program must compile").into_runtime()
+fn build(variant: usize) -> Runtime {
+    TestHarness::from_source(PROGRAMS[variant]).expect("C17 scenario program must compile").into_runtime()
 }
 
-fn bp_location(rt: &Runtime, k: usize) -> SourceLocation {
-    let line = PROGRAM
+fn bp_location(rt: &Runtime, variant: usize, k: usize) -> SourceLocation {
+    // the last line containing the needle (the needles of the program bodies also occur earlier)
+    let line = PROGRAMS[variant]
         .lines()
-        .position(|l| l.contains(BP_NEEDLES[k]))
+        .enumerate()
+        .filter(|(_, l)| l.contains(BP_NEEDLES[variant][k]))
+        .map(|(i, _)| i)
+        .last()
         .expect("needle") as u32;
-    rt.resolve_breakpoint_location(PROGRAM, 0, line, 0).expect("breakpoint location resolves")
+    rt.resolve_breakpoint_location(PROGRAMS[variant], 0, line, 0).expect("breakpoint location resolves")
 }
 
 fn run_cycles(rt: &mut Runtime) -> Vec<String> {
@@ -90,13 +151,13 @@ fn run_cycles(rt: &mut Runtime) -> Vec<String> {
 
 /// Reference observations of an undebugged (logpoint-only) sequential run:
 /// (final dump, cycle results, executed statement sequence as [start,end]).
-pub fn reference() -> Result<Value, String> {
+pub fn reference(variant: usize) -> Result<Value, String> {
     // plain run without any debugger attached
-    let mut plain = build();
+    let mut plain = build(variant);
     let plain_res = run_cycles(&mut plain);
     let plain_dump = crate::dump::dump_runtime(&plain);
     // run with a logpoint on every statement: yields the statement order without stopping
-    let mut rt = build();
+    let mut rt = build(variant);
     let locs: Vec<SourceLocation> = rt.statement_locations(0).map(|l| l.to_vec()).unwrap_or_default();
     if locs.is_empty() {
         return Err("no statement locations registered for file 0".into());
@@ -145,6 +206,9 @@ fn action_of(a: &str) -> Option<ControlAction> {
         "SI1" => ControlAction::StepIn(Some(1)),
         "SO1" => ControlAction::StepOver(Some(1)),
         "SU1" => ControlAction::StepOut(Some(1)),
+        "SI2" => ControlAction::StepIn(Some(2)),
+        "SO2" => ControlAction::StepOver(Some(2)),
+        "SU2" => ControlAction::StepOut(Some(2)),
         _ => return None,
     })
 }
@@ -156,8 +220,9 @@ struct Ctl<'a> {
     stops: Vec<DebugStop>,
     problems: Vec<(String, String)>,
     /// pending step issued while parked: (kind, origin depth, origin location)
-    expect: Option<(String, u32, Option<(u32, u32)>)>,
+    expect: Option<(String, u32, Option<(u32, u32)>, Option<u32>)>,
     ref_seq: Vec<(u32, u32)>,
+    variant: usize,
     parks_seen: u64,
     resumes_while_parked: u64,
     step_checks: u64,
@@ -193,7 +258,7 @@ impl Ctl<'_> {
             self.problem("stop-location", format!("stop notification without location: reason {:?}", s.reason));
         }
         self.parks_seen = self.parks_seen.max(parks);
-        if let (Some(stop), Some((kind, d0, origin))) = (first_new, self.expect.clone()) {
+        if let (Some(stop), Some((kind, d0, origin, target_thread))) = (first_new, self.expect.clone()) {
             self.expect = None;
             if stop.reason == DebugStopReason::Step && self.parked() {
                 self.step_checks += 1;
@@ -210,18 +275,38 @@ impl Ctl<'_> {
                     }
                     _ => {
                         if let (Some(o), Some(l)) = (origin, loc) {
-                            // two readings of "the very next statement": next statement executed at
-                            // all, or next statement of the same debug thread (stepping is
-                            // thread-scoped: task programs and background programs are threads)
-                            let bg_start = PROGRAM.find("PROGRAM Bg").unwrap_or(usize::MAX) as u32;
-                            let same_thread: Vec<(u32, u32)> = self
+                            // readings of "the very next statement": the next statement executed at
+                            // all, or the next statement executed by the debug thread the step is
+                            // addressed to (stepping is thread-scoped: the task program and the
+                            // background program are threads 1 and 2; an unaddressed step belongs
+                            // to the thread that is stopped)
+                            // thread of every executed statement: the task program runs first in a
+                            // cycle (thread 1, incl. the functions/FBs it calls), from the first
+                            // statement of PROGRAM Bg on it is thread 2, until PROGRAM Main starts again
+                            let bg_start = PROGRAMS[self.variant].find("PROGRAM Bg").unwrap_or(usize::MAX) as u32;
+                            let main_start = PROGRAMS[self.variant].find("PROGRAM Main").unwrap_or(usize::MAX) as u32;
+                            let mut cur = 1u32;
+                            let thr: Vec<u32> = self
                                 .ref_seq
                                 .iter()
-                                .copied()
-                                .filter(|x| (x.0 >= bg_start) == (o.0 >= bg_start))
+                                .map(|x| {
+                                    if x.0 >= bg_start {
+                                        cur = 2;
+                                    } else if x.0 >= main_start {
+                                        cur = 1;
+                                    }
+                                    cur
+                                })
                                 .collect();
-                            let ok = self.ref_seq.windows(2).any(|w| w[0] == o && w[1] == l)
-                                || same_thread.windows(2).any(|w| w[0] == o && w[1] == l);
+                            let mut ok = self.ref_seq.windows(2).any(|w| w[0] == o && w[1] == l);
+                            for (i, x) in self.ref_seq.iter().enumerate() {
+                                if *x == o {
+                                    let target = target_thread.unwrap_or(thr[i]);
+                                    if let Some(j) = (i + 1..self.ref_seq.len()).find(|&j| thr[j] == target) {
+                                        ok |= self.ref_seq[j] == l;
+                                    }
+                                }
+                            }
                             if !ok {
                                 self.problem(
                                     "step-in-next",
@@ -272,7 +357,11 @@ impl Ctl<'_> {
                 ControlAction::StepOut(_) => Some("out"),
                 _ => None,
             };
-            self.expect = kind.map(|k| (k.to_string(), origin_depth, origin_loc));
+            let target_thread = match action {
+                ControlAction::StepIn(t) | ControlAction::StepOver(t) | ControlAction::StepOut(t) => t,
+                _ => None,
+            };
+            self.expect = kind.map(|k| (k.to_string(), origin_depth, origin_loc, target_thread));
         } else if resume {
             self.expect = None;
         }
@@ -288,9 +377,10 @@ pub fn worker_exec(case: &Value) -> Value {
         .as_array()
         .map(|a| a.iter().map(|p| (p[0].as_u64().unwrap_or(0) as u32, p[1].as_u64().unwrap_or(0) as u32)).collect())
         .unwrap_or_default();
+    let variant = case["variant"].as_u64().unwrap_or(0) as usize;
     x3::run_controlled(case, HORIZON, move |sched| {
-        let mut rt = build();
-        let bps: Vec<SourceLocation> = (0..BP_NEEDLES.len()).map(|k| bp_location(&rt, k)).collect();
+        let mut rt = build(variant);
+        let bps: Vec<SourceLocation> = (0..BP_NEEDLES[variant].len()).map(|k| bp_location(&rt, variant, k)).collect();
         let control = rt.enable_debug();
         let handle = verif_sync::thread::spawn(move || {
             let res = run_cycles(&mut rt);
@@ -304,6 +394,7 @@ pub fn worker_exec(case: &Value) -> Value {
             problems: Vec::new(),
             expect: None,
             ref_seq,
+            variant,
             parks_seen: 0,
             resumes_while_parked: 0,
             step_checks: 0,
@@ -403,9 +494,9 @@ fn script_class(script: &[String]) -> String {
         .map(|a| match a.as_str() {
             "P" | "P1" | "P2" => "pause",
             "C" => "continue",
-            "SI" | "SI1" => "step-in",
-            "SO" | "SO1" => "step-over",
-            "SU" | "SU1" => "step-out",
+            "SI" | "SI1" | "SI2" => "step-in",
+            "SO" | "SO1" | "SO2" => "step-over",
+            "SU" | "SU1" | "SU2" => "step-out",
             "X" => "clear",
             "W" => "wait",
             _ => "breakpoint",
@@ -429,7 +520,7 @@ fn pool(threads: usize, deadline: Option<Instant>) -> PoolCfg {
 }
 
 fn scripts(tier: Tier) -> Vec<Vec<String>> {
-    let base: Vec<&str> = vec!["P", "P1", "P2", "C", "SI", "SO", "SU", "B0", "B1", "B2", "B3", "B4", "X", "W"];
+    let base: Vec<&str> = vec!["P", "P1", "P2", "C", "SI", "SO", "SU", "B0", "B1", "B2", "B3", "B4", "B5", "B6", "X", "W"];
     let steps = ["SI", "SO", "SU"];
     let mut out: Vec<Vec<String>> = Vec::new();
     let mut push = |v: Vec<&str>| {
@@ -443,7 +534,7 @@ fn scripts(tier: Tier) -> Vec<Vec<String>> {
         push(vec![a]);
     }
     // stop somewhere, wait for the stop, then each resume kind (and a second one)
-    for b in ["B0", "B1", "B2", "B3", "B4", "P", "P1", "P2"] {
+    for b in ["B0", "B1", "B2", "B3", "B4", "B5", "B6", "P", "P1", "P2"] {
         for s in steps.iter().chain(["C"].iter()) {
             push(vec![b, "W", s]);
         }
@@ -453,6 +544,20 @@ fn scripts(tier: Tier) -> Vec<Vec<String>> {
             for s2 in &steps {
                 push(vec![b, "W", s1, "W", s2]);
             }
+        }
+    }
+    // per-thread steps: addressed to the stopped thread and to the OTHER thread (B0/B5 stop the
+    // task program = thread 1, B4/B6/P2 the background program = thread 2)
+    for b in ["B0", "B5", "B4", "B6", "P1", "P2"] {
+        for s in ["SI1", "SO1", "SU1", "SI2", "SO2", "SU2"] {
+            push(vec![b, "W", s]);
+        }
+    }
+    // stops in the second cycle (the breakpoint hits again after Continue), then each step kind:
+    // the last statement of each program is a call, so a step-over/out must not stop inside it
+    for b in ["B5", "B6", "B0", "B4"] {
+        for s in ["SI", "SO", "SU", "SO1", "SO2", "SU1", "SU2"] {
+            push(vec![b, "W", "C", "W", s]);
         }
     }
     for a in &base {
@@ -480,8 +585,13 @@ fn scripts(tier: Tier) -> Vec<Vec<String>> {
 pub fn run(ctx: &Ctx) -> EngineResult {
     quiet_panics();
     let mut rep = Report::new("model_checking");
-    let reference = reference().map_err(|e| Machinery(format!("cannot establish the undebugged reference run: {e}")))?;
-    let all = scripts(ctx.tier);
+    let mut references = Vec::new();
+    for v in 0..PROGRAMS.len() {
+        references.push(reference(v).map_err(|e| Machinery(format!("cannot establish the undebugged reference run (variant {v}): {e}")))?);
+    }
+    // every script is explored on every program variant
+    let all: Vec<(usize, Vec<String>)> =
+        (0..PROGRAMS.len()).flat_map(|v| scripts(ctx.tier).into_iter().map(move |s| (v, s))).collect();
     let budget = ctx.tier.pick(45.0, 850.0);
     let deadline = Instant::now() + Duration::from_secs_f64(budget);
     let bound = ctx.tier.pick(1usize, 2usize);
@@ -497,9 +607,10 @@ pub fn run(ctx: &Ctx) -> EngineResult {
     // run scripts concurrently: each exploration uses a slice of the worker processes
     let lanes = 4usize;
     let per_lane = (ctx.threads / lanes).max(1);
-    let results = crate::par::par_map(&all, lanes, 1 << 20, Some(deadline), |_, script| {
+    let results = crate::par::par_map(&all, lanes, 1 << 20, Some(deadline), |_, (variant, script)| {
+        let reference = &references[*variant];
         let cfg = pool(per_lane, Some(deadline));
-        let scenario = json!({"script": script, "ref_seq": reference["seq"]});
+        let scenario = json!({"script": script, "variant": variant, "ref_seq": reference["seq"]});
         let counters = std::sync::Mutex::new((0u64, 0u64, 0u64));
         let st = x3::explore(
             &cfg,
@@ -512,7 +623,7 @@ pub fn run(ctx: &Ctx) -> EngineResult {
                 c.0 += o["stops"].as_u64().unwrap_or(0);
                 c.1 += o["resumes_while_parked"].as_u64().unwrap_or(0);
                 c.2 += o["step_checks"].as_u64().unwrap_or(0);
-                judge(&reference, script, rec)
+                judge(reference, script, rec)
             },
             &|rec| format!("stops={} reasons={} finished={}", rec["obs"]["stops"], rec["obs"]["stop_reasons"], rec["obs"]["finished"]),
             &|rec, _| {
@@ -530,7 +641,7 @@ pub fn run(ctx: &Ctx) -> EngineResult {
         let c = counters.into_inner().unwrap();
         (st, c)
     });
-    for (script, r) in all.iter().zip(results) {
+    for ((_variant, script), r) in all.iter().zip(results) {
         let Some((st, c)) = r else {
             exhaustive = false;
             scripts_capped += 1;
@@ -589,18 +700,19 @@ pub fn run(ctx: &Ctx) -> EngineResult {
     rep.set("resumes_while_stopped", resumes);
     rep.set("step_depth_or_order_checks", step_checks);
     rep.set("distinct_outcomes", outcomes.len() as u64);
-    rep.set("reference_statement_sequence_length", reference["seq"].as_array().map(|a| a.len()).unwrap_or(0) as u64);
+    rep.set("program_variants", PROGRAMS.len() as u64);
+    rep.set("reference_statement_sequence_length", references[0]["seq"].as_array().map(|a| a.len()).unwrap_or(0) as u64);
     rep.set("exhaustive", exhaustive);
     rep.set("explanation", "states/transitions = scheduling points executed over all schedules (stateless exploration of the real DebugControl + Runtime; no state merging); traces_validated_against_impl = complete schedules whose observations were compared with the undebugged reference run");
     rep.assume("interleavings at Mutex/Condvar operation granularity (every statement hook, controller call and event push), sequentially consistent, no spurious wake-ups; deviation-bounded");
-    rep.assume("scripts contain no writes; one program (nested functions, loop, FB, one task + one background program), two cycles");
+    rep.assume("scripts contain no writes; one program in two variants (nested functions, loop, FB, one task + one background program; the task program or the background program ends inside a call), two cycles");
     Ok(rep)
 }
 
 pub fn check_case(case: &Value) -> Vec<Violation> {
     let sc = &case["scenario"];
     let script: Vec<String> = sc["script"].as_array().map(|a| a.iter().map(|s| s.as_str().unwrap_or("").to_string()).collect()).unwrap_or_default();
-    let Ok(reference) = reference() else { return Vec::new() };
+    let Ok(reference) = reference(sc["variant"].as_u64().unwrap_or(0) as usize) else { return Vec::new() };
     let cfg = pool(1, None);
     let Ok(rec) = x3::exec_once(&cfg, sc) else { return Vec::new() };
     if rec["abort"].is_null() {
